@@ -100,9 +100,48 @@ impl Task {
 //@@ end
 }
 
+pub struct WorkflowX { pub id: String, pub name: String }
+impl WorkflowX {
+    pub uninterp spec fn s_json(&self) -> Seq<char>;
+    // TRUSTED: Workflow::to_json (serde, derive-generated)
+    #[verifier::external_body] pub fn to_json(&self) -> (r: Result<String>) ensures r is Ok ==> r->Ok_0@ == self.s_json() { unimplemented!() }
+}
+impl ProcObj {
+    pub uninterp spec fn l_wf(&self) -> WorkflowX;
+    #[verifier::external_body] pub fn model(&self) -> (r: Box<WorkflowX>) ensures *r == self.l_wf() { unimplemented!() }
+    #[verifier::external_body] pub fn env_text(&self) -> (r: String) ensures r@ == self.l_env() { unimplemented!() }
+    #[verifier::external_body] pub fn err_text(&self) -> (r: Option<String>) ensures opt_view(r) == self.l_err() { unimplemented!() }
+}
+pub open spec fn proc_row_is(r: data::Proc, p: ProcObj) -> bool {
+    r.id@ == p.id@ && r.model@ == p.l_wf().s_json() && r.mid@ == p.l_wf().id@ && r.name@ == p.l_wf().name@ && r.state@ == state_str(p.l_state())
+        && r.start_time == p.l_start() && r.end_time == p.l_end() && r.timestamp == p.timestamp && r.env@ == p.l_env() && opt_view(r.err) == p.l_err()
+}
+impl ProcObj {
+//@@ extract file=acts/src/scheduler/process/process.rs in="impl Process" item="fn into_data" name=Process::into_data props=C11,C12
+//@@ opt noghost
+//@@ rw R7 `self . state ( ) . into ( )` => `state_into_string(self.state())`
+//@@ rw R7 `self . env ( ) . to_string ( )` => `self.env_text()`
+//@@ rw R7 `self . err ( ) . map ( | err | err . to_string ( ) )` => `self.err_text()`
+//@@ spec
+    ensures
+        //# S1-process-row-is-the-live-process
+        ret is Ok ==> proc_row_is(ret->Ok_0, **self),
+//@@ end
+}
 // ---- write-back
-pub struct StoreX { pub s: Store }
 impl Store {
+//@@ extract file=acts/src/cache/store.rs in="impl Store" item="fn upsert_proc" name=Store::upsert_proc props=C11
+//@@ opt noheap=into_data
+//@@ spec
+    requires old(st).wf()
+    ensures
+        //# S2-process-row-upserted
+        ret is Ok ==> final(st).procs.dom().contains(proc.id@) && proc_row_is(final(st).procs[proc.id@], **proc),
+        //# S2-frame
+        final(st).tasks == old(st).tasks && final(st).messages == old(st).messages && final(st).models == old(st).models && final(st).events == old(st).events
+            && forall|k: Seq<char>| k != proc.id@ ==> (final(st).procs.dom().contains(k) <==> old(st).procs.dom().contains(k))
+                && (old(st).procs.dom().contains(k) ==> final(st).procs[k] == old(st).procs[k]),
+//@@ end
 //@@ extract file=acts/src/cache/store.rs in="impl Store" item="fn upsert_task" name=Store::upsert_task props=C11
 //@@ rw R7 `let data : data :: Task = task . into_data ( ) ? ;` => `let data: data::Task = task.into_data()?;`
 //@@ rw R7 `let id = Id :: new ( & task . pid , & task . id ) ;` => ``
